@@ -432,11 +432,8 @@ func (p *Processor) ProcessMessage(
 	}
 
 	if created {
-		// The subprocessor's goroutine was started a moment ago and is not receiving yet: a
-		// non-blocking send would drop the very unit it was created for (in practice always, so
-		// that a message whose units arrive once each was never built). Receiving is the first
-		// thing that goroutine does, so this waits for a goroutine start, no longer than the
-		// subprocessor lives.
+		// The first unit of a new subprocessor always finds room in its (buffered) channel; the
+		// blocking form is kept so that it can never be the unit that is dropped.
 		select {
 		case unitChan <- unitWithSender{unit: unit, sender: sender}:
 			return nil
@@ -486,8 +483,12 @@ func (p *Processor) createSubprocessor(
 		return nil, err
 	}
 
-	// create communication channel
-	unitChan := make(chan unitWithSender)
+	// create communication channel, with room for one copy of every shard of the message: the
+	// units of a message arrive together (every peer forwards its shard as soon as it has it) and
+	// ProcessMessage never blocks on a running subprocessor — without a buffer every unit that
+	// arrived while the subprocessor was validating the previous one was dropped, and a message
+	// whose units were handed over once each, back to back, was never built
+	unitChan := make(chan unitWithSender, scheduler.NumTotalShards())
 	p.subProcessors[*key] = unitChan
 
 	// launch subprocessor
